@@ -4,6 +4,8 @@ the Go AST, equals the model's on every record whose file offsets fit an int64.
 -/
 import Hts.Model.Fai
 import Hts.Gen.Fai
+import Hts.Lemmas.FaiSane
+import Hts.Lemmas.FaiSample
 namespace Hts.Tie.C19
 open Hts.Model.Fai
 
@@ -41,7 +43,16 @@ theorem tie_position (r : Record) (p : Nat) (h : r.position p < 2 ^ 63) :
     rw [e]
     exact add_ofNat_toNat _ _ h
 
-/-- `Record.endOfLineOffset` inside the sequence (`p ≤ Length`, `BasesPerLine > 0`) -/
+/-- `Record.endOfLineOffset` inside the sequence (`p ≤ Length`, `BasesPerLine > 0`).
+
+The two hypotheses are exactly what the only caller, the loop of `Seq.Read`, establishes:
+* `0 < BasesPerLine`: Go divides by `r.BasesPerLine` here and panics when it is 0, whereas the generated
+  `Int.tdiv x 0` is 0 — so the equation is stated only where Go does not panic.  The model's `Seq.read` tests
+  `basesPerLine = 0` before entering the loop (outcome `panicDiv`), and `Hts.Props.C19.read_never_divides_by_zero`
+  proves that outcome unreachable for every index built by `NewIndex` (any input) or accepted by `ReadFrom`.
+* `p ≤ Length`: the loop calls it at `p = s.cur < s.end`, and `File.Seq`/`File.SeqRange` only hand out
+  `end ≤ Length` (`Hts.Lemmas.Fai.seqRange_bounds`, `seqWhole_bounds`).
+`tie_readLoop` below packages this: the whole loop run with the regenerated functions equals the model's. -/
 theorem tie_endOfLineOffset (r : Record) (s : BitVec 64) (p : Nat) (hp : p ≤ r.length) (hb : 0 < r.basesPerLine) :
     Hts.Gen.Fai.endOfLineOffset r.length s r.basesPerLine r.bytesPerLine p = (r.endOfLineOffset p : Int) := by
   unfold Hts.Gen.Fai.endOfLineOffset Record.endOfLineOffset
@@ -58,6 +69,82 @@ theorem tie_endOfLineOffset (r : Record) (s : BitVec 64) (p : Nat) (hp : p ≤ r
     rw [if_neg hc, hc']
     simp only [Bool.false_eq_true, if_false]
     omega
+
+/-! ### the loop of `Seq.Read` with the regenerated arithmetic -/
+
+/-- `min` of fai/file.go -/
+theorem tie_min (a b : Nat) : Hts.Gen.Fai.min (a : Int) (b : Int) = ((min a b : Nat) : Int) := by
+  unfold Hts.Gen.Fai.min
+  by_cases h : a < b
+  · have : ((a : Int) < (b : Int)) := by omega
+    simp only [this, decide_true, if_true]
+    omega
+  · have : ¬ ((a : Int) < (b : Int)) := by omega
+    simp only [this, decide_false, Bool.false_eq_true, if_false]
+    omega
+
+/-- the column order of the .fai text: the model's `parseRecord` pattern `[name, length, start, bases, bytes]` -/
+theorem tie_field_order :
+    [Hts.Gen.Fai.nameField, Hts.Gen.Fai.lengthField, Hts.Gen.Fai.startField, Hts.Gen.Fai.basesField,
+      Hts.Gen.Fai.bytesField] = [0, 1, 2, 3, 4] := by decide
+
+/-- `Record.position` and `Record.endOfLineOffset` as Go computes them (regenerated), as functions on naturals -/
+def posGen (r : Record) (p : Nat) : Nat :=
+  (Hts.Gen.Fai.position r.length (BitVec.ofNat 64 r.start) r.basesPerLine r.bytesPerLine p).toNat
+
+def eolGen (r : Record) (p : Nat) : Nat :=
+  (Hts.Gen.Fai.endOfLineOffset r.length (BitVec.ofNat 64 r.start) r.basesPerLine r.bytesPerLine p).toNat
+
+/-- the number of bytes one iteration of the loop asks `ReadAt` for,
+`min(min(r.endOfLineOffset(cur), end-int(cur)), len(b))`, with every operation regenerated -/
+theorem tie_want (r : Record) (cur endPos k : Nat) (hp : cur ≤ r.length) (hb : 0 < r.basesPerLine)
+    (hpos : r.position cur < 2 ^ 63) (hend : r.position cur ≤ endPos) :
+    Hts.Gen.Fai.min
+        (Hts.Gen.Fai.min
+          (Hts.Gen.Fai.endOfLineOffset r.length (BitVec.ofNat 64 r.start) r.basesPerLine r.bytesPerLine cur)
+          ((endPos : Int) - ((posGen r cur : Nat) : Int)))
+        (k : Int) =
+      ((min (min (r.endOfLineOffset cur) (endPos - r.position cur)) k : Nat) : Int) := by
+  have e1 : posGen r cur = r.position cur := tie_position r cur hpos
+  rw [tie_endOfLineOffset r _ cur hp hb, e1]
+  have e2 : (endPos : Int) - (r.position cur : Int) = ((endPos - r.position cur : Nat) : Int) := by omega
+  rw [e2, tie_min, tie_min]
+
+/-- The loop of `Seq.Read` run with the regenerated `position`/`endOfLineOffset` is the model's loop, for every
+file, buffer size and cursor, whenever the handle satisfies what `Seq.read` and `SeqRange` establish
+(`BasesPerLine > 0`, `stop ≤ Length`) and the offsets fit an int64. -/
+theorem tie_readLoop (file : Bytes) (r : Record) (endPos stop cur k : Nat) (acc : Bytes)
+    (hb : 0 < r.basesPerLine) (hstop : stop ≤ r.length) (hsmall : ∀ p, p < stop → r.position p < 2 ^ 63) :
+    readLoopG file (posGen r) (eolGen r) endPos stop cur k acc = readLoop file r endPos stop cur k acc := by
+  unfold readLoop
+  apply Hts.Lemmas.Fai.readLoopG_congr file _ _ _ _ endPos stop _ (stop - cur) cur k acc (Nat.le_refl _)
+  intro p hp
+  refine ⟨tie_position r p (hsmall p hp), ?_⟩
+  unfold eolGen
+  rw [tie_endOfLineOffset r _ p (by omega) hb]
+  simp
+
+/-- One `Read` call computed with the regenerated arithmetic (same control flow as `Seq.read`). -/
+def readGen (file : Bytes) (s : Seq) (k : Nat) : RdRes :=
+  if k = 0 then ⟨[], .nil, s.cur⟩
+  else if s.stop ≤ s.cur then ⟨[], .eof, s.cur⟩
+  else if s.rcd.basesPerLine = 0 then ⟨[], .panicDiv, s.cur⟩
+  else readLoopG file (posGen s.rcd) (eolGen s.rcd) (posGen s.rcd s.stop) s.stop s.cur k []
+
+theorem tie_read (file : Bytes) (s : Seq) (k : Nat) (hstop : s.stop ≤ s.rcd.length)
+    (hsmall : ∀ p, p ≤ s.stop → s.rcd.position p < 2 ^ 63) : readGen file s k = s.read file k := by
+  unfold readGen Seq.read
+  by_cases hk : k = 0
+  · simp [hk]
+  · by_cases hc : s.stop ≤ s.cur
+    · simp [hk, hc]
+    · by_cases hb : s.rcd.basesPerLine = 0
+      · simp [hk, hc, hb]
+      · simp only [hk, hc, hb, if_false]
+        have e : posGen s.rcd s.stop = s.rcd.position s.stop := tie_position _ _ (hsmall _ (Nat.le_refl _))
+        rw [e]
+        exact tie_readLoop file s.rcd _ s.stop s.cur k [] (by omega) hstop
+          (fun p hp => hsmall p (by omega))
 
 /-! ### `Record.isValid` (the validation `ReadFrom` applies), with its int64 arithmetic -/
 
@@ -118,5 +205,18 @@ theorem tie_isValid (name : Bytes) (l s b y : Int)
       rw [BitVec.sle_eq_decide, t1, BitVec.toInt_sdiv_of_ne_or_ne _ _ hne, t2, ty]
       simp only [maxInt64]
       congr 1
+
+/-! ### the hypotheses of the tie theorems are satisfiable: record `s1 8 11 4 6` of the sample file
+(`Hts.Lemmas.Fai.sampleFile`: CRLF, two lines of 4 bases) -/
+
+open Hts.Lemmas.Fai (exRec exRec_small)
+
+example := tie_position exRec 5 (exRec_small 5 (by decide))
+example := tie_endOfLineOffset exRec 0#64 5 (by decide) (by decide)
+example := tie_want exRec 5 29 3 (by decide) (by decide) (exRec_small 5 (by decide)) (by decide)
+example (file : Bytes) := tie_readLoop file exRec 23 8 2 3 [] (by decide) (by decide)
+  (fun p hp => exRec_small p (by omega))
+example (file : Bytes) := tie_read file ⟨exRec, 2, 2, 8⟩ 3 (by decide) (fun p hp => exRec_small p hp)
+example := tie_isValid [115, 49] 8 11 4 6 (by decide) (by decide) (by decide) (by decide) (by decide)
 
 end Hts.Tie.C19
